@@ -138,16 +138,24 @@ def build_module(pym, c, d, v):
 def run(ctx):
     import pymoto as pym
     rng = ctx.rng
-    ctx.rule = ('cases: (a) ElementOperation / NodalOperation with random integer operator arrays of 0-D..3-D leading shape, last axis '
-                '#dofs_per_element or #nodes_per_element (repeat-per-dof branch), integer nodal/element data, grids up to 4x3x3, ndof 1..3: '
-                'response AND sensitivity compared exactly, output shape compared; (b) Strain(voigt True/False) / Stress / ElementAverage / '
+    ctx.rule = ('cases: (a) ElementOperation / NodalOperation with exactly representable operator arrays (integers or multiples of 1/4) of 0-D..3-D leading '
+                'shape, last axis #dofs_per_element or #nodes_per_element (repeat-per-dof branch), grids up to 4x3x3, ndof 1..3, operator / nodal vector / '
+                'element data / seeds handed over as float64, float32, int64, int32 arrays: response AND sensitivity compared exactly, output shape compared; '
+                'deterministic stress set on every seed: the SAME operator through NodalOperation and ElementOperation (dof and node level) for leading shapes '
+                '(2,2) (3,3) (2,3) (3,2) (2,2,2) (1,2) (2,1,3) (3,) () in 2-D and 3-D with data not symmetric in the leading indices, and the full grid of '
+                'operator x vector x seed dtypes with non-integer values on the float side; (b) Strain(voigt True/False) / Stress / ElementAverage / '
                 'ThermoMechanical: operator array (element_matrix) and responses on affine fields u = G x + c with integer gradients and on random '
-                'fields, dyadic and non-dyadic element sizes (1e-9 relative; model evaluated in Q(sqrt 3), sqrt(3)-part must vanish; ElementAverage '
-                'exact for dyadic sizes); (c) malformed stream: exception class. non-trivial = grid with >= 2 elements; distinct by all parameters')
+                'fields, dyadic and non-dyadic element sizes, integer-valued element sizes handed over as Python ints / numpy int32/int64 / mixed kinds / '
+                'mixed with floats (deterministic set: every module and plane mode in 2-D with thickness 1, 2, 3 and in 3-D), material constants as floats and '
+                'Python ints, integer-typed nodal vectors and densities (1e-9 relative; model evaluated in Q(sqrt 3), sqrt(3)-part must vanish; ElementAverage '
+                'exact for dyadic sizes); (c) malformed stream: exception class; an exception on a well-formed case is a failing input. '
+                'non-trivial = grid with >= 2 elements; distinct by all parameters incl. dtypes/kinds')
     ctx.assumptions += ['theorems are about exact (real) arithmetic; floats are tied by exact (integer/dyadic data) or 1e-9 relative comparison',
                         '2-D Stress/ThermoMechanical include the out-of-plane thickness element_size[2] exactly as the code does (D *= element_size[2])',
                         'np.einsum / np.add.at are read as the sums they denote (order of floating additions is not modelled)',
-                        'a module instance is used with one vector size only (the cached dofconn / repeated operator of ElementOperation is history, C03)']
+                        'a module instance is used with one vector size only (the cached dofconn / repeated operator of ElementOperation is history, C03)',
+                        'the model is over values: the scalar type / dtype a size, constant, operator or vector is handed over in is explored by the generators and '
+                        'the twin-domain oracle (integer sizes == equal float sizes), not modelled; single-precision element sizes are not generated']
     ctx.trusted += ['Print Assumptions: real-number theorems rely on the Coq stdlib Reals axioms (ClassicalDedekindReals.sig_forall_dec, '
                     'sig_not_dec, FunctionalExtensionality.functional_extensionality_dep)',
                     'Bignums (BigQ on 63-bit machine integers) is used to EVALUATE the models in the correspondence check only',
@@ -511,8 +519,13 @@ def run(ctx):
             hs = rand_sizes(rng, exact)
         field = 'affine' if (kind not in ('strain', 'stress') or rng.random() < 0.75) else 'random'
         der.append(gen_derived(rng, kind, dim, grid, hs, kinds, exact, shear=rng.random() < 0.6, field=field))
+    dsites = dict(strain='Strain._prepare', stress='Stress._prepare', average='ElementAverage._prepare', thermo='ThermoMechanical._prepare')
     for c in der:
-        derived_case(c)
+        try:
+            derived_case(c)
+        except Exception as e:  # noqa -- every derived case is well-formed: an exception is a concrete failing input
+            ctx.violation('impl-violates', dsites[c['what']], 'well-formed domain, material constants and field are accepted', c['what'],
+                          {k: v for k, v in c.items()}, expected='no exception', got=f'{type(e).__name__}: {str(e)[:300]}')
 
     # balance the shards: 3-D cases in Q(sqrt 3) are the heavy ones
     def cost(e):
@@ -688,36 +701,6 @@ def oracle_one(ctx, pym, oc, rs, bad):
         hs = c['sizes']
         d = pym.DomainDefinition(a, b, cz, *mk_sizes(hs, c.get('size_kinds')))
         site = dict(strain='Strain._prepare', stress='Stress._prepare', average='ElementAverage._prepare', thermo='ThermoMechanical._prepare')[kind]
-        # the way the element sizes are handed over (Python int, numpy int, float, mixed) must not matter: twin domain from the equal floats
-        if c.get('size_kinds') and any(k != 'float' for k in c['size_kinds']):
-            df_ = pym.DomainDefinition(a, b, cz, *[float(h) for h in hs])
-            vin = np.asarray(oc['u'], dtype=float) if kind != 'thermo' else np.array(c['x'], dtype=float)
-            mt, _ = build_module(pym, c, df_, vin)
-            EMt = np.array(mt.element_matrix, dtype=float)     # as prepared (ElementOperation may expand it per dof in response)
-            mt.response()
-            got = oc['f'] if kind == 'thermo' else oc['y']
-            exp = np.array(mt.sig_out[0].state, dtype=float)
-            if differs(oc['EM'], EMt) or differs(got, exp):
-                bad(site, 'result does not depend on the scalar type of the element sizes (integer sizes == equal float sizes)',
-                    f'dim{dim}', exp.tolist(), np.asarray(got).tolist())
-        # the sensitivity of the (linear) derived module is the transpose of its response:  <dy, y(v)> == <du(dy), v>
-        if kind in ('strain', 'stress', 'average'):
-            m, _ = build_module(pym, c, d, oc['u'])
-            m.response()
-            dy = rs.integers(-6, 7, size=np.shape(m.sig_out[0].state)) / 2
-            m.sig_out[0].sensitivity = dy
-            m.sensitivity()
-            du = np.asarray(m.sig_in[0].sensitivity, dtype=float)
-            v = rs.integers(-4, 5, size=oc['u'].size).astype(float)
-            mv, _ = build_module(pym, c, d, v)
-            mv.response()
-            lhs, rhs = float(np.sum(dy * mv.sig_out[0].state)), float(np.dot(du, v))
-            scl = max(1.0, float(np.abs(dy).sum() * np.abs(mv.sig_out[0].state).max()))
-            if du.shape != oc['u'].shape or abs(lhs - rhs) > 1e-9 * scl:
-                if oc['u'].dtype.kind in 'iu':
-                    bad(*INTU, lhs, rhs)
-                else:
-                    bad('ElementOperation._sensitivity', SENS_PRED, kind, lhs, rhs)
         if kind in ('strain', 'stress') and c.get('field') == 'affine':
             Gm = np.asarray(c['G'], dtype=float)
             eps = true_strain(Gm, dim)
@@ -798,6 +781,36 @@ def oracle_one(ctx, pym, oc, rs, bad):
                 if np.abs(Ku - oc['f']).max() > 1e-9 * max(fsc, float(np.abs(Ku).max())):
                     bad('ThermoMechanical._prepare', 'thermal load equals K times the free thermal expansion field', f'dim{dim}')
 
+        # the way the element sizes are handed over (Python int, numpy int, float, mixed) must not matter: twin domain from the equal floats
+        if c.get('size_kinds') and any(k != 'float' for k in c['size_kinds']):
+            df_ = pym.DomainDefinition(a, b, cz, *[float(h) for h in hs])
+            vin = np.asarray(oc['u'], dtype=float) if kind != 'thermo' else np.array(c['x'], dtype=float)
+            mt, _ = build_module(pym, c, df_, vin)
+            EMt = np.array(mt.element_matrix, dtype=float)     # as prepared (ElementOperation may expand it per dof in response)
+            mt.response()
+            got = oc['f'] if kind == 'thermo' else oc['y']
+            exp = np.array(mt.sig_out[0].state, dtype=float)
+            if differs(oc['EM'], EMt) or differs(got, exp):
+                bad(site, 'result does not depend on the scalar type of the element sizes (integer sizes == equal float sizes)',
+                    f'dim{dim}', exp.tolist(), np.asarray(got).tolist())
+        # the sensitivity of the (linear) derived module is the transpose of its response:  <dy, y(v)> == <du(dy), v>
+        if kind in ('strain', 'stress', 'average'):
+            m, _ = build_module(pym, c, d, oc['u'])
+            m.response()
+            dy = rs.integers(-6, 7, size=np.shape(m.sig_out[0].state)) / 2
+            m.sig_out[0].sensitivity = dy
+            m.sensitivity()
+            du = np.asarray(m.sig_in[0].sensitivity, dtype=float)
+            v = rs.integers(-4, 5, size=oc['u'].size).astype(float)
+            mv, _ = build_module(pym, c, d, v)
+            mv.response()
+            lhs, rhs = float(np.sum(dy * mv.sig_out[0].state)), float(np.dot(du, v))
+            scl = max(1.0, float(np.abs(dy).sum() * np.abs(mv.sig_out[0].state).max()))
+            if du.shape != oc['u'].shape or abs(lhs - rhs) > 1e-9 * scl:
+                if oc['u'].dtype.kind in 'iu':
+                    bad(*INTU, lhs, rhs)
+                else:
+                    bad('ElementOperation._sensitivity', SENS_PRED, kind, lhs, rhs)
 
 if __name__ == '__main__':
     vlib.main(run, 'C12')
